@@ -193,7 +193,9 @@ fn build_procs(evs: &[Ev]) -> Vec<ProcInst> {
             "proc-exit" => {
                 let pid = e.word(0);
                 if let Some(p) = v.iter_mut().find(|p| p.pid == pid) {
-                    let raw = e.field("raw").and_then(|s| s.parse().ok()).unwrap_or(-1);
+                    // `truth`: what became of the script when that differs from the status the
+                    // shell handed to zinoma (a failing middle command under a shell without -e)
+                    let raw = e.field("truth").or(e.field("raw")).and_then(|s| s.parse().ok()).unwrap_or(-1);
                     let wrote = e.field("wrote").unwrap_or("").split(',').filter(|s| !s.is_empty()).map(String::from).collect();
                     p.exit = Some((e.seq, raw, wrote));
                 }
